@@ -71,7 +71,7 @@ def judge_modes(case):
     mix = U.get_mixture(case["mixture"])
     t = case["T"]
     tp = t - 60.0 if case["tp"] else None
-    pp = 0.1 if case["pp"] else None
+    pp = case.get("pp_value", 0.1) if case["pp"] else None  # includes a permeate pressure of exactly 0 / 0.0: "specified" is not "truthy"
     st, r = invoke(case["ep"], mix, case["model"], case["x"], t, tp, pp)
     v = []
     if case["tp"] and case["pp"]:
@@ -186,8 +186,8 @@ def main(tier, seed):
     ts = core.lat([333.15, 353.15], seed)[:1] if q else core.lat([313.15, 333.15, 353.15], seed)
     U.install_fit_memo()
     sp = core.Space("permeate_specification", {"ep": ENTRY_POINTS + ["curve_from_permeances"], "mixture": mixes, "model": ["NRTL", "UNIQUAC"],
-                                               "tp": [False, True], "pp": [False, True], "x": xs, "T": ts},
-                    lambda c: U.has_model(U.get_mixture(c["mixture"]), c["model"]))
+                                               "tp": [False, True], "pp": [False, True], "pp_value": [0.1, 0.0, 0], "x": xs, "T": ts},
+                    lambda c: U.has_model(U.get_mixture(c["mixture"]), c["model"]) and (c["pp"] or c["pp_value"] == 0.1))
     m = core.run_space(rep, sp, judge_modes)
     for ep in ENTRY_POINTS:
         for cell in ("vac", "T", "p"):
